@@ -637,10 +637,65 @@ def jnum_order_family(g):
     return doc, b'$.list[?(' + e + b')]' + r.choice([b'', b'', b'.u', b'.a'])
 
 
+def operand_agg_family(g):
+    """a filter whose comparison operand runs a nested filter (or a wildcard) and then an aggregate function:
+    `@.k[?(@.b > 1)].cnt() == 2`.  The nested filter saves and restores parser state around the operand, and
+    the function after it must still see plain values in accessor mode.  Returns (doc, path, aggregate names)."""
+    r = g.r
+    members = []
+    for i in range(r.randint(2, 5)):
+        k = ('a', [('o', [(b'b', ('n', float(r.randint(0, 6))))] + ([(b'c', ('s', b'x'))] if r.random() < 0.3 else []))
+                   for _ in range(r.randint(0, 4))])
+        m = [(b'u', ('n', float(100 + i))), (b'k', k)]
+        if r.random() < 0.3:
+            m.append((b'h', ('n', float(r.randint(0, 3)))))
+        members.append(('o', m))
+    doc = ('o', [(b'list', ('a', members)), (b'ref', ('n', float(r.randint(0, 4))))])
+    n1, n2 = r.randint(0, 5), r.randint(0, 4)
+    agg = r.choice(['cnt', 'cnt', 'amax', 'first', 'arr'])
+    inner = r.choice([b'[?(@.b > %d)]' % n1, b'[?(@.b != %d)]' % n1, b'[*]', b'[?(@.c)]', b'[?(@.b > $.ref)]'])
+    if agg == 'cnt':
+        operand = b'@.k' + inner + b'.cnt()'
+        cmp_ = r.choice([b' == %d', b' > %d', b' >= %d', b' != %d']) % n2
+    elif agg == 'amax':
+        operand = b'@.k' + inner + b'.b.amax()'
+        cmp_ = r.choice([b' > %d', b' == %d', b' <= %d']) % n1
+    elif agg == 'first':
+        operand = b'@.k' + inner + b'.first().b'
+        cmp_ = r.choice([b' == %d', b' > %d']) % n1
+    else:
+        operand = b'@.k' + inner + b'.arr()[0].b'
+        cmp_ = r.choice([b' == %d', b' < %d']) % n1
+    e = operand + cmp_
+    k = r.random()
+    if k < 0.2:
+        e = e + r.choice([b' && @.h', b' || @.h', b' && @.u > 100'])
+    elif k < 0.3:
+        e = b'@.h == 1 || ' + e
+    tail = r.choice([b'', b'.u', b'.u', b'.k[0].b'])
+    return doc, b'$.list[?(' + e + b')]' + tail, [agg]
+
+
 def nested_arrays_family(g):
     """an array (or object) of arrays of different lengths and slice/index subscripts applied through a
     multi-valued prefix: per-node state left behind by one array would show on the next"""
     r = g.r
+    if r.random() < 0.3:
+        # chained subscripts on a matrix: the inner subscript runs while the outer one is still iterating
+        rows, cols = r.randint(3, 5), r.randint(3, 5)
+        doc = ('a', [('a', [('n', float(10 * i + j)) for j in range(cols)]) for i in range(rows)])
+
+        def sl(n):
+            k = r.random()
+            if k < 0.15:
+                return ('idx', r.randint(-n, n - 1))
+            a = None if r.random() < 0.3 else r.randint(-n, n)
+            b_ = None if r.random() < 0.3 else r.randint(-n, n)
+            return ('slice', a, b_, r.choice(['absent', 1, 1, 2, -1, -2]))
+        steps = [('union', [sl(rows)] + ([sl(rows)] if r.random() < 0.2 else [])), ('union', [sl(cols)])]
+        if r.random() < 0.2:
+            steps = [('wild', 'br')] + steps[1:] + [('union', [('idx', 0)])][:0]
+        return doc, steps
     arrays = []
     base = 0
     for _ in range(r.randint(2, 5)):
